@@ -141,25 +141,48 @@ def scan_template() -> typing.Dict[str, str]:
     if not re.search(r"\{%- if t\.string_like -%\} " + SRC + r" = " + SRC + r"\.encode\(\) if isinstance\(" + SRC + r", str\) else "
                      + SRC + r" # Implicit string encoding \{% endif -%\}", m):
         raise Closed('assign_array: implicit string encoding not recognised')
+    # the three branches bind either `self._<f>` directly (shipped shape) or the local `_a_` that is range-checked and then
+    # stored (shape of the F-PY-ARRELEM fix); one and the same target in all three
     mb = re.search(r"\{%- if t\.element_type is UnsignedIntegerType and t\.element_type\.bit_length <= (\d+) -%\} "
                    r"if isinstance\(" + SRC + r", \(bytes, bytearray\)\)( and len\(" + SRC + r"\)" + CMPCAP + r")?: "
-                   r"(?:# [^{]*?)?self\._" + FID + r" = _np_\.frombuffer\(" + SRC + ", " + NST + r"\) # type: ignore el \{% endif -%\}", m)
+                   r"(?:# [^{]*?)?(self\._" + FID + r"|_a_) = _np_\.frombuffer\(" + SRC + ", " + NST + r"\) # type: ignore el \{% endif -%\}", m)
     if not mb:
         raise Closed('assign_array: bytes fast path not recognised')
     facts['t_bytes_max_w'] = mb.group(1)
     facts['t_len_bytes'] = b(mb.group(2) is not None)
+    local = mb.group(3) == '_a_'
+    tgt = '_a_' if local else r"self\._" + FID
     rest = m[mb.end():]
     mn = re.match(r" if isinstance\(" + SRC + r", _np_\.ndarray\) and " + SRC + r"\.dtype == " + NST + r" and " + SRC + r"\.ndim == 1"
-                  r"( and " + SRC + r"\.size" + CMPCAP + r")?: # type: ignore (?:# [^{]*?)?self\._" + FID + " = " + SRC + r" else: ", rest)
+                  r"( and " + SRC + r"\.size" + CMPCAP + r")?: # type: ignore (?:# [^{]*?)?" + tgt + " = " + SRC + r" else: ", rest)
     if not mn:
         raise Closed('assign_array: ndarray fast binding not recognised')
     facts['t_len_nd'] = b(mn.group(1) is not None)
     rest = rest[mn.end():]
-    ms = re.match(r"(?:# [^{]*?)?" + SRC + r" = _np_\.array\(" + SRC + ", " + NST + r"\)\.flatten\(\) "
-                  r"(if not " + SRC + r"\.size" + CMPCAP + r": (?:# [^{]*? )?raise ValueError\(f'.*?'\) )?self\._" + FID + " = " + SRC + " assert ", rest)
-    if not ms:
-        raise Closed('assign_array: slow path not recognised')
-    facts['t_len_slow'] = b(ms.group(1) is not None)
+    rmin = r"\{\{ t\.element_type\.inclusive_value_range\.min \}\}"
+    rmax = r"\{\{ t\.element_type\.inclusive_value_range\.max \}\}"
+    if not local:
+        ms = re.match(r"(?:# [^{]*?)?" + SRC + r" = _np_\.array\(" + SRC + ", " + NST + r"\)\.flatten\(\) "
+                      r"(if not " + SRC + r"\.size" + CMPCAP + r": (?:# [^{]*? )?raise ValueError\(f'.*?'\) )?self\._" + FID + " = " + SRC + " assert ", rest)
+        if not ms:
+            raise Closed('assign_array: slow path not recognised')
+        facts['t_len_slow'] = b(ms.group(1) is not None)
+        facts['arrelem_quirk'] = 'true'
+    else:
+        ms = re.match(r"(?:# [^{]*?)?_a_ = _np_\.array\(" + SRC + ", " + NST + r"\)\.flatten\(\) "
+                      r"(if not _a_\.size" + CMPCAP + r": (?:# [^{]*? )?raise ValueError\(f'.*?'\) )?"
+                      r"\{%- if t\.element_type is FloatType and t\.element_type\.bit_length < (\d+) %\} "
+                      r"_x_ = _np_\.abs\(_np_\.asarray\(" + SRC + r", _np_\.float64\)\) (?:# [^{]*? )?"
+                      r"if \(_np_\.isfinite\(_x_\) & \(_x_ > " + rmax + r"\.0\)\)\.any\(\): raise ValueError\(f'.*?'\) \{%- endif %\} "
+                      r"\{%- if t\.element_type is IntegerType and t\.element_type\.bit_length not in \(([0-9, ]+)\) %\} "
+                      r"if _a_\.size and not \(" + rmin + r" <= int\(_a_\.min\(\)\) and int\(_a_\.max\(\)\) <= " + rmax + r"\): "
+                      r"raise ValueError\(f'.*?'\) \{%- endif %\} self\._" + FID + r" = _a_ (?:# [^{]*? )?assert ", rest)
+        if not ms:
+            raise Closed('assign_array: element-checked slow path / element checks / final store not recognised')
+        facts['t_len_slow'] = b(ms.group(1) is not None)
+        facts['arrelem_quirk'] = 'false'
+        facts['elem_float_below'] = ms.group(2)
+        facts['elem_std_widths'] = [int(x) for x in ms.group(3).replace(' ', '').split(',')]
 
     # ---- property setters -----------------------------------------------------------------------------------------
     acc = between(raw, '@{{ f|id }}.setter', '{% endfor -%}', 'setter')
@@ -274,13 +297,21 @@ def gen_pyobj() -> typing.Tuple[bool, str]:
     except Closed as ex:
         gen.write_if_changed(OUT, gen.HEADER % (PY_INIT + ', ' + BASE_J2) + '(* translator failed closed: %s *)\n' % str(ex).replace('*)', '* )'))
         return False, 'failed closed: %s' % ex
-    missing = [k for k in ORDER if k not in facts]
+    if facts.get('arrelem_quirk') == 'false':
+        if facts['elem_float_below'] != facts.get('t_float_check_below') or facts['elem_std_widths'] != widths:
+            gen.write_if_changed(OUT, gen.HEADER % BASE_J2 + '(* translator failed closed: element checks of assign_array use other bounds *)\n')
+            return False, 'failed closed: element checks of assign_array: float bound %s vs %s, standard widths %r vs %r' % (
+                facts['elem_float_below'], facts.get('t_float_check_below'), facts['elem_std_widths'], widths)
+    missing = [k for k in ORDER + ['arrelem_quirk'] if k not in facts]
     if missing:
         gen.write_if_changed(OUT, gen.HEADER % BASE_J2 + '(* translator failed closed: facts missing %s *)\n' % missing)
         return False, 'failed closed: facts missing %r' % missing
     text = HEAD + pw_text + '\nDefinition tmpl_gen : tmpl := {|\n' + ';\n'.join('  %s := %s' % (k, facts[k]) for k in ORDER) + '\n|}.\n'
+    text += ('\n(* true: assign_array stores whatever NumPy converted (F-PY-ARRELEM); false: every branch binds a local that is checked\n'
+             '   against the element range (integers of non-standard width on all paths, finite float16/32 values on the\n'
+             '   conversion path) before it is stored *)\nDefinition arrelem_quirk_gen : bool := %s.\n' % facts['arrelem_quirk'])
     gen.write_if_changed(OUT, text)
-    return True, 'pick_width over %r; template facts %s' % (widths, ' '.join('%s=%s' % (k[2:], facts[k]) for k in ORDER))
+    return True, 'pick_width over %r; template facts %s arrelem_quirk=%s' % (widths, ' '.join('%s=%s' % (k[2:], facts[k]) for k in ORDER), facts['arrelem_quirk'])
 
 
 GENERATORS = {'pyobj': gen_pyobj}
